@@ -132,6 +132,16 @@ def _sfcf(rnd, lay):
     call = {'listing': 'sorted', 'name': corr['name'], 'quarks': corr['quarks'], 'noffset': b[0], 'wf': b[1], 'wf2': b[2]}
     if rnd.random() < 0.4:
         call['im'] = True
+    if lay == 'o' and len(blocks) > 1 and rnd.random() < 0.5:
+        # several keys of the one correlator in one call, requested in an order that is not the order of the blocks in the file
+        wfs, w2s = list(corr['wfs']), list(corr['wf2s'])
+        rnd.shuffle(wfs)
+        rnd.shuffle(w2s)
+        if wfs == list(corr['wfs']) and w2s == list(corr['wf2s']):
+            wfs.reverse()
+            w2s.reverse()
+        call['multi'] = {'names': [corr['name']], 'quarks': [corr['quarks']], 'offsets': list(corr['offsets']), 'wfs': wfs,
+                         'wf2s': w2s if corr['type'] != 'bi' else [0], 'keyed_out': rnd.random() < 0.5}
     return fs, call
 
 
@@ -158,15 +168,33 @@ LENIENT = ('ms_E', 'ms_qtop', 'gfms_qtop', 'gfms_gf')
 # =====================================================================================================
 # running a reader and judging one cut
 
+def _sf_keys(fs, call):
+    m = call['multi']
+    corr = SF.corr_by_name(fs, call['name'])
+    return [(call['name'], q, off, wf, (w2 if corr['type'] != 'bi' else 0)) for q in m['quarks'] for off in m['offsets'] for wf in m['wfs']
+            for w2 in (m['wf2s'] if corr['type'] != 'bi' else [0])]
+
+
 def _run(family, mod, path, fs, call):
     if mod is FL:
         got, _ = FL.run(path, fs, call)
         return got
+    if mod is SF and call.get('multi'):
+        res = SF.run_multi(path, fs, call)
+        return {'%r@%d' % (key, t): o for key, d in res.items() for t, o in d.items()}
     return mod.run(path, fs, call)
 
 
 def _expected(family, mod, fs, call, limit=None, drop=None):
     """-> (expectation {key: {name: {cfg: v}}}, scale or None, rtol)"""
+    if mod is SF and call.get('multi'):
+        out = {}
+        for key in _sf_keys(fs, call):
+            corr = SF.corr_by_name(fs, key[0])
+            e1 = SF.expected_one(fs, call, key[0], key[1], key[2], key[3], (key[4] if corr['type'] != 'bi' else None), limit=limit, drop=drop)
+            for t, v in e1.items():
+                out['%r@%d' % (key, t)] = v
+        return out, None, 1e-15
     if mod is SF:
         return SF.expected_one(fs, call, call['name'], call['quarks'], call['noffset'], call['wf'], call['wf2'], limit=limit, drop=drop), None, 1e-15
     if mod is HD:
@@ -229,14 +257,20 @@ def sfcf_partial_number_cut(fs, call, fsobj, rel, k):
 def sfcf_used_end(fs, call, fsobj, rel, rep, cfg):
     """Byte offset just behind the last number the call uses from the per-configuration file rel (separate / compact layout)."""
     corr = SF.corr_by_name(fs, call['name'])
-    w2 = None if corr['type'] == 'bi' else call['wf2']
-    nums = SF.numbers(fs, fs['reps'][rep], cfg, corr, call['noffset'], call['wf'], w2)
-    last = nums[-1][1 if call.get('im') else 0]
     text = fsobj.files[rel].decode()
-    p = text.find(last)
-    if p < 0 or text.find(last, p + 1) >= 0:
-        raise RuntimeError('harness: used number %r not found exactly once in %s' % (last, rel))
-    return p + len(last)
+    if call.get('multi'):
+        blocks = [(key[2], key[3], (None if corr['type'] == 'bi' else key[4])) for key in _sf_keys(fs, call)]
+    else:
+        blocks = [(call['noffset'], call['wf'], None if corr['type'] == 'bi' else call['wf2'])]
+    end = 0
+    for off, wf, w2 in blocks:
+        nums = SF.numbers(fs, fs['reps'][rep], cfg, corr, off, wf, w2)
+        last = nums[-1][1 if call.get('im') else 0]
+        p = text.find(last)
+        if p < 0 or text.find(last, p + 1) >= 0:
+            raise RuntimeError('harness: used number %r not found exactly once in %s' % (last, rel))
+        end = max(end, p + len(last))
+    return end
 
 
 def judge(family, fs, call, fsobj, rel, k, path):
